@@ -19,7 +19,7 @@ EXPLANATION = (
     "Decides these structural clauses; equality with an independent codec over all inputs is not decided.")
 # every anchor of these rules lives in the h3 crate: thorough tier repeats them on the feature-less build
 EXTRA_CONFIGS = ["h3-plain"]
-RULES = "C11-a static tables (A11); C11-b wire formats (A11+decision lists); C11-c accepted representations (A3); C11-d prefix refusal (A16/A18); C11-e error class (A3); C11-f encoder choice, lookups and literals use the field's own bytes (A3/A4); C11-a also: the static lookups are the literal table and nothing else; shared: Huffman decode_next rows under C11-c"
+RULES = "C11-a static tables (A11); C11-b wire formats (A11+decision lists); C11-c accepted representations (A3); C11-d prefix refusal, the sign bit is stored as read (A16/A18/A4); C11-e error class (A3); C11-f encoder choice, lookups and literals use the field's own bytes, with_value always carries the given value (A3/A4); C11-a also: the static lookups are the literal table and nothing else; shared: Huffman decode_next rows under C11-c"
 
 HERE = os.path.dirname(os.path.dirname(os.path.abspath(__file__)))
 REF_TABLE = [(a.encode(), b.encode()) for a, b in json.load(open(os.path.join(HERE, "ref", "rfc9204_static_table.json")))["entries"]]
@@ -471,4 +471,27 @@ def run(ctx):
                           "for find=%s find_name=%s the encoder writes %s, expected %s (static variant)" % (found, foundn, writes, want),
                           str(writes), None, p.describe())
         ctx.floor("C11-f", "encoder iterations", n, 3)
+    # ------------------------------------------------------------------ C11-d / C11-f the decoded prefix and a rebuilt field are what was read
+    # HeaderPrefix::decode stores the sign bit and the two integers as they were read (the only decisions are the usize range checks);
+    # HeaderField::with_value always carries the value it is given (an empty value is a value)
+    hpd = ru.need(ctx, "C11-d", Q + "block::HeaderPrefix::decode")
+    if hpd:
+        for p in [p for p in ru.all_paths(ctx, "C11-d", hpd, max_visits=1) if p.end == "return" and p.ret_shape().startswith("Ok")]:
+            dec_ = [t for t in p.tests if t[3][0] != "discr" and not ("usize::MAX" in t[1] and expr.cmp_nf(t[3], t[2]) is not None)]
+            sg = p.ret[3][0][3] if (p.ret[0] == "agg" and p.ret[3] and p.ret[3][0][0] == "agg") else ()
+            names_ = [f_["name"] for f_ in prog.adts[Q + "block::HeaderPrefix"]["variants"][0]["fields"]]
+            sv = dict(zip(names_, sg)).get("sign_negative")
+            ok = not dec_ and sv is not None and sv[0] == "binop" and sv[1] == "Eq" and expr.fold(sv[3], consts) == 1
+            ctx.check(ok, "C11-d", hpd.key, "the sign bit is stored as read, no decision on the decoded values",
+                      "HeaderPrefix::decode %s: a prefix such as `00 80` (S = 1, Delta Base 0: Base -1, invalid for a stateless decoder) is "
+                      "turned into a valid one before get() can refuse it" % ("decides on %s" % dec_[0][1][:50] if dec_ else "stores sign_negative = %s" % (pa.vfmt(sv)[:50] if sv else "?")),
+                      "", None, p.describe())
+    wv = ru.need(ctx, "C11-f", Q + "field::HeaderField::with_value")
+    if wv:
+        ps_ = [p for p in ru.all_paths(ctx, "C11-f", wv, max_visits=1) if p.end == "return"]
+        ok = len(ps_) == 1 and not [t for t in ps_[0].tests if t[3][0] != "discr"] and ps_[0].ret[0] == "agg" and len(ps_[0].ret[3]) == 2 and \
+            expr.mentions(ps_[0].ret[3][1], lambda v: v == ("param", 2, ())) and not expr.mentions(ps_[0].ret[3][1], lambda v: v[0] == "param" and v[1] == 1)
+        ctx.check(ok, "C11-f", wv.key, "with_value always carries the given value",
+                  "HeaderField::with_value has %d paths / returns %s: a literal with a static name reference and (for instance) an empty value decodes "
+                  "to the static entry's own value" % (len(ps_), [pa.vfmt(p.ret)[:60] for p in ps_][:2]), "")
     ctx.assume("prefix_int / prefix_string codecs are decided (structurally) under C15")
